@@ -280,6 +280,7 @@ package unmarshal
 //@ spec fn spanStateOK(z *zipkinDecoderV2) bool = len(z.key) == len(z.val) && (isnil(z.traceId) || len(z.traceId) == 16) && (isnil(z.spanId) || len(z.spanId) == 8)
 //@ func (*zipkinDecoderV2).decodeSpan [C05,C06]
 //@   requires fresh-state: len(z.key) == 0 && len(z.val) == 0 && isnil(z.traceId) && isnil(z.spanId)
+//@   requires fresh-scalars: z.timestampNs == 0 && z.durationNs == 0 && z.parentId == "" && z.name == "" && z.serviceName == ""
 //@   requires payload-is-this-span: len(z.payload) == len(rawSpan)
 //@   modifies fields(z)
 //@ func (*zipkinDecoderV2).decodeSpan$1 [C05,C06]
